@@ -16,7 +16,7 @@ func entWeights() map[string]int {
 }
 
 func mixedWeights() map[string]int {
-	return map[string]int{EntRaise: 12, EntDecide: 26, EntWL: 4, WrkReg: 7, WrkRec: 12, WrkPur: 4, BcnReg: 6, BcnRec: 10, BcnPur: 3,
+	return map[string]int{FeeGrantOp: 2, EntRaise: 12, EntDecide: 26, EntWL: 4, WrkReg: 7, WrkRec: 12, WrkPur: 4, BcnReg: 6, BcnRec: 10, BcnPur: 3,
 		BankSend: 6, StrCreate: 5, StrClaim: 4, StrTopUp: 2, StrUpdate: 1, StrCancel: 2, StakeDeleg: 1}
 }
 
@@ -50,7 +50,7 @@ var cfgC03 = reg(PropCfg{
 
 var cfgC04 = reg(PropCfg{
 	ID: "C04",
-	Profile: &Profile{Weights: mixedWeights(), LockedActors: true, MultiPct: 20, MinBlocks: 8, MaxBlocks: 40, MaxTxs: 4, MaxOps: 3, PUpper: 5, PActor: 10, PNamed: 2, PFault: 5, PExec: 6,
+	Profile: &Profile{Weights: mixedWeights(), LockedActors: true, MultiPct: 20, PGranter: 12, MinBlocks: 8, MaxBlocks: 40, MaxTxs: 4, MaxOps: 3, PUpper: 5, PActor: 10, PNamed: 2, PFault: 5, PExec: 6,
 		PGovParams: 0, PBadRef: 5, Vesting: true, TinyLimits: true, ValidParams: true, FeeModes: []int{FeeExact, FeeExact, FeeExact, FeeLower, FeeHigher, FeeNone}},
 	Rule: "history with >=1 completion and >=1 partial unlock (0 < fee < locked) or a failed fee-paying tx of a locked payer",
 	NonTrivial: func(w *World) bool {
@@ -62,8 +62,8 @@ var cfgC04 = reg(PropCfg{
 
 var cfgC05 = reg(PropCfg{
 	ID: "C05",
-	Profile: &Profile{Weights: map[string]int{EntRaise: 14, EntDecide: 28, EntWL: 3, WrkReg: 8, WrkRec: 14, WrkPur: 4, BcnReg: 7, BcnRec: 12, BcnPur: 3, BankSend: 5, StrCreate: 3, StrClaim: 2, StrCancel: 1, StakeDeleg: 1},
-		MinBlocks: 8, MaxBlocks: 40, MaxTxs: 4, MaxOps: 3, MultiPct: 30, LockedActors: true, PUpper: 5, PActor: 10, PNamed: 3, PFault: 8, PExec: 8,
+	Profile: &Profile{Weights: map[string]int{FeeGrantOp: 3, EntRaise: 14, EntDecide: 28, EntWL: 3, WrkReg: 8, WrkRec: 14, WrkPur: 4, BcnReg: 7, BcnRec: 12, BcnPur: 3, BankSend: 5, StrCreate: 3, StrClaim: 2, StrCancel: 1, StakeDeleg: 1},
+		MinBlocks: 8, MaxBlocks: 40, MaxTxs: 4, MaxOps: 3, MultiPct: 30, LockedActors: true, PGranter: 12, PUpper: 5, PActor: 10, PNamed: 3, PFault: 8, PExec: 8,
 		PGovParams: 0, PBadRef: 5, Vesting: true, TinyLimits: true, ValidParams: true, FeeModes: []int{FeeExact, FeeExact, FeeExact, FeeLower, FeeHigher, FeeNone, FeeExactPlusExtraDenom}},
 	Rule: "history containing >=1 tx whose fee payer has locked eFUND > 0",
 	NonTrivial: func(w *World) bool { return w.Classes["c05.payer-with-locked"] > 0 },
@@ -177,7 +177,7 @@ func TestC17(t *testing.T) { RunProperty(t, cfgC17) }
 var cfgC14 = reg(PropCfg{
 	ID: "C14",
 	Profile: &Profile{Weights: mixedWeights(), MinBlocks: 8, MaxBlocks: 40, MaxTxs: 4, MaxOps: 4, PUpper: 6, PActor: 8, PNamed: 2, PFault: 4, PExec: 8,
-		PGovParams: 12, PBadRef: 5, Vesting: true, TinyLimits: true, BigAmounts: true, EntDenomChange: true, LongTime: true, GasSweep: true, MultiPct: 35},
+		PGovParams: 12, PBadRef: 5, Vesting: true, TinyLimits: true, BigAmounts: true, EntDenomChange: true, LongTime: true, GasSweep: true, MultiPct: 35, PGranter: 10},
 	Rule: "history with a failed multi-message tx whose first message was viable alone, or enterprise parameters changed while an order was queued",
 	NonTrivial: func(w *World) bool {
 		return w.Classes["c14.failed-multi-message-tx-first-op-viable"] > 0 || w.Classes["c14.ent-params-changed-with-order-queued"] > 0
